@@ -85,8 +85,9 @@ type isoState struct {
 }
 
 // once the worker has allocated more than this since it started (with at least one large block among it), it
-// checkpoints and exits; the parent starts a fresh one
-const isoRecycleAbove = 12 << 30
+// checkpoints and exits; the parent starts a fresh one. Kept small relative to the address-space limit so
+// that whether one allocation of a given size succeeds does not depend on what ran before it.
+const isoRecycleAbove = 2 << 30
 
 func newIsoResult() IsoResult {
 	return IsoResult{Sigs: map[string]bool{}, Viol: map[string]*IsoViol{}, Counters: map[string]int64{}}
